@@ -378,6 +378,13 @@ func (fr *frame) instr(ins ssa.Instruction, bc string, st *state) {
 		}
 	case *ssa.If, *ssa.Jump:
 	case *ssa.Index:
+		if isString(i.X.Type()) {
+			sx, idx := fr.val(i.X), fr.val(i.Index)
+			fr.oblige("bounds", "index:"+fr.srcText(i.Pos()), bc, and(app("<=", "0", idx), app("<", idx, app("gstr.len", sx))), i.Pos(), nil)
+			fr.setVal(i, app("gstr.at", sx, idx))
+			e.assume(and(app("<=", "0", fr.vals[i]), app("<=", fr.vals[i], "255")))
+			return
+		}
 		// index of array value
 		arr := i.X.Type().Underlying().(*types.Array)
 		idx := fr.val(i.Index)
